@@ -92,6 +92,7 @@ func C04(p *load.Prog, r *report.Report) {
 		r.Undecided("C04.model", "layout", "", err.Error())
 		return
 	}
+	inherit(p, r, "C04", "C03", C03)
 	P := symPt("")
 	xa, ya := affineSpec(P)
 	cx, cy := absint.CanonOf(FP, xa), absint.CanonOf(FP, ya)
